@@ -125,11 +125,20 @@ func randTime(r *rand.Rand) time.Time {
 
 // sameValue: equality of two base (non-pointer) values the way the properties
 // mean it: instants for times, bytes for byte strings (nil == empty).
+// timeStrict: the families that never leave memory (resource, soft collection) also want
+// the zone offset back; a round trip through JSON is judged on the instant (C01).
+var timeStrict bool
+
+func zoneOffset(t time.Time) int {
+	_, off := t.Zone()
+	return off
+}
+
 func sameValue(a, b any) bool {
 	switch x := a.(type) {
 	case time.Time:
 		y, ok := b.(time.Time)
-		return ok && x.Equal(y)
+		return ok && x.Equal(y) && (!timeStrict || zoneOffset(x) == zoneOffset(y))
 	case []byte:
 		y, ok := b.([]byte)
 		return ok && bytes.Equal(x, y)
